@@ -3,7 +3,11 @@ import z3
 from .common import *
 
 FILE = 'atsim/potentials/config/_filtered_config_parser.py'
-REG.add_class(ClassDecl(FILE, 'FilteredConfigParser', {'_self_species_list': T.List(T.Str), '_self_exclude_flag': T.Bool}))
+REG.add_class(ClassDecl('<ext>', 'PairEntry', {'species': T.List(T.Str)}, external=True))      # PairPotentialTuple / EAMFSDensity rows: .species is a tuple of labels
+REG.add_class(ClassDecl('<ext>', 'SingleEntry', {'species': T.Str}, external=True))            # EAM embed / density rows: .species is one label
+REG.add_class(ClassDecl('<ext>', 'WrappedParser', {'pair': T.List(T.Obj('PairEntry')), 'eam_density_fs': T.List(T.Obj('PairEntry')),
+                                                    'eam_embed': T.List(T.Obj('SingleEntry')), 'eam_density': T.List(T.Obj('SingleEntry'))}, external=True))
+REG.add_class(ClassDecl(FILE, 'FilteredConfigParser', {'_self_species_list': T.List(T.Str), '_self_exclude_flag': T.Bool, '__wrapped__': T.Obj('WrappedParser')}))
 FS_ = ObjSort('FilteredConfigParser'); StrList = z3.SeqSort(StrS)
 slist = field('FilteredConfigParser', '_self_species_list', StrList); xflag = field('FilteredConfigParser', '_self_exclude_flag', BoolS)
 
@@ -26,3 +30,42 @@ REG.add(Contract(FILE, 'FilteredConfigParser._check_tuple',
     params=[('self', T.Obj('FilteredConfigParser')), ('check_tuple', T.List(T.Str))], result=T.Bool,
     ensures=lambda v, old, res: [res == keeps(v.self, v.check_tuple)],
     invariants={0: _inv}, instantiate_int_foralls=True, carries=['post'], props=['C13']))
+
+# ---- the four filtered views: each is exactly the wrapped parser's list with the entries that are not kept removed, order preserved
+from pyvc.spec import FilterSeq
+from pyvc.values import unwrap, Opt
+PE, SE, WP = ObjSort('PairEntry'), ObjSort('SingleEntry'), ObjSort('WrappedParser')
+pe_species = field('PairEntry', 'species', StrList); se_species = field('SingleEntry', 'species', StrS)
+wrapped = field('FilteredConfigParser', '__wrapped__', WP)
+filt_pairs = FilterSeq('filt_pairs', [FS_, z3.SeqSort(PE)], lambda s, xs, k: keeps(s, pe_species(xs[k])), lambda s, xs, k: xs[k], PE)
+filt_single = FilterSeq('filt_single', [FS_, z3.SeqSort(SE)], lambda s, xs, k: keeps(s, z3.Unit(se_species(xs[k]))), lambda s, xs, k: xs[k], SE)
+
+def _view(name, spec, ety):
+    src = field('WrappedParser', name, z3.SeqSort(ObjSort(ety)))
+    REG.add(Contract(FILE, 'FilteredConfigParser.' + name, params=[('self', T.Obj('FilteredConfigParser'))], result=T.List(T.Obj(ety)),
+        ensures=lambda v, old, res: [res == spec(v.self, src(wrapped(v.self)), z3.Length(src(wrapped(v.self))))],
+        post_names=['is-the-wrapped-list-with-exactly-the-unkept-entries-removed'],
+        comprehensions={0: (spec, lambda v: [v.self, src(wrapped(v.self))])}, carries=['post', 'comprehension'], props=['C13']))
+for _n in ('pair', 'eam_density_fs'): _view(_n, filt_pairs, 'PairEntry')
+for _n in ('eam_embed', 'eam_density'): _view(_n, filt_single, 'SingleEntry')
+
+# ---- construction: which of the two modes a view is in (A6: ObjectProxy.__init__ stores the wrapped parser)
+def _t(ns, x): return ns._ex.term_of(x, ns._st)
+def _init_post(v, old, res):
+    ex, inc = old.val('exclude'), old.val('include')
+    exn, inn = ex.isnone, inc.isnone
+    exl, inl = _t(old, ex.val), _t(old, inc.val)
+    ex_nonempty = z3.And(z3.Not(exn), z3.Length(exl) > 0)
+    sl, xf = v.field('self', '_self_species_list'), v.field('self', '_self_exclude_flag')
+    sl_none = z3.BoolVal(False)
+    if isinstance(sl, Opt): sl_none, sl = sl.isnone, _t(v, sl.val)      # an Optional argument was stored: the list must not be None
+    return [z3.Implies(z3.And(z3.Not(exn), z3.Or(z3.Length(exl) > 0, inn)), z3.And(xf, sl == exl)),          # exclude given (an empty exclude list removes nothing)
+            z3.Implies(z3.And(exn, inn), z3.And(xf, z3.Length(sl) == 0)),                                        # neither: nothing is filtered
+            z3.Implies(z3.And(z3.Not(ex_nonempty), z3.Not(inn), z3.Or(exn, z3.Length(exl) == 0)), z3.And(z3.Not(xf), sl == inl)),   # include given
+            v.field('self', '__wrapped__') == v.config_parser, z3.Not(sl_none)]
+REG.add(Contract(FILE, 'FilteredConfigParser.__init__',
+    params=[('self', T.New('FilteredConfigParser')), ('config_parser', T.Obj('WrappedParser')), ('exclude', T.Opt(T.List(T.Str))), ('include', T.Opt(T.List(T.Str)))],
+    ensures=_init_post, post_names=['exclude-mode', 'no-filter', 'include-mode', 'wraps-the-parser', 'species-list-is-a-list'],
+    raises_when=lambda v, old, exc: [z3.BoolVal(exc.cls == 'ValueError'),
+                                     z3.And(z3.Not(old.val('exclude').isnone), z3.Length(_t(old, old.val('exclude').val)) > 0, z3.Not(old.val('include').isnone), z3.Length(_t(old, old.val('include').val)) > 0)],
+    on_raise=lambda v, old: [], carries=['post', 'raises'], props=['C13']))
